@@ -293,6 +293,71 @@ theorem above_root_raises (inc place : Name) (h1 : inc ≠ [""]) (h2 : leadingDo
     · rfl
     · simp
 
+/-
+Full statement (kept visible; not yet proved at this strength):
+
+  theorem expand_fuel_adequate (tree : Tree) (files : List Path)
+      (hfin : ∀ p, tree p ≠ none → p ∈ files) (names : List Name) :
+      ∃ bound, ∀ fuel, bound ≤ fuel →
+        expandList fuel tree [TOPFILE] names = expandList bound tree [TOPFILE] names
+
+i.e. on EVERY finite tree, also when names acquire empty segments (`a..b`, `a.`, which denote
+the same files as `a.b`, `a` but are different cache/cycle keys). What is missing is the
+pushdown argument of DESIGN.md §5 C11: every suffix pushed by a relative include starts with
+a non-empty segment and the path depth is bounded by the tree, so only finitely many names are
+reachable and the ancestor chain (which never repeats a name) is bounded. The theorem below
+proves the statement, with the explicit bound `2·|files| + 2`, on the documented syntax: names
+in the top file and in include lists are dot-separated NON-EMPTY segments (after the leading
+dots of a relative include). There a name determines its path, the ancestors are distinct
+resolvable names plus the top file, hence at most `2·|files| + 1` of them (each file is
+reachable as `p` and, if it is an `init` file, as its directory), so fuel never decides.
+-/
+/-- **Fuel adequacy (clean-name fragment).** On a finite tree whose include names have no
+empty segments, for clean top-file names, every recursion budget of at least
+`2·|files| + 2` gives the same result — data or error — as the budget `2·|files| + 2`:
+Python's recursion limit never decides, and the compiler never loops. -/
+theorem expand_fuel_adequate_partial (tree : Tree) (files : List Path) (hct : CleanTree tree files)
+    (names : List Name) (hnames : ∀ n, n ∈ names → CleanName n) (fuel : Nat)
+    (hf : 2 * files.length + 2 ≤ fuel) :
+    expandList fuel tree [TOPFILE] names = expandList (2 * files.length + 2) tree [TOPFILE] names := by
+  unfold expandList
+  cases hr : resolveAll tree names with
+  | error e => rfl
+  | ok rs =>
+    simp only [bindE]
+    apply expandAll_congr
+    intro r hr'
+    obtain ⟨hmem, hres⟩ := resolveAll_mem tree names rs hr r hr'
+    have hchain : Chain tree [TOPFILE] := by
+      refine ⟨by simp, ?_⟩
+      intro n hn; simp at hn; exact Or.inl hn
+    apply expandFile_fuel_irrelevant tree files hct fuel (2 * files.length + 2) [TOPFILE] r.1 r.2.1 r.2.2
+      hchain (hnames r.1 hmem) hres
+    · simp only [depthBound, List.length_cons, List.length_nil]; omega
+    · simp only [depthBound, List.length_cons, List.length_nil]; omega
+
+/-- the same for the whole compilation -/
+theorem compile_fuel_adequate_partial (cfg : Cfg) (top : TopView) (tree : Tree) (files : List Path)
+    (hct : CleanTree tree files)
+    (hnames : ∀ o ns, processTop cfg.allowEmptyTop top = .ok o → o = some ns → ∀ n, n ∈ ns → CleanName n)
+    (fuel : Nat) (hf : 2 * files.length + 2 ≤ fuel) :
+    compile cfg fuel top tree = compile cfg (2 * files.length + 2) top tree := by
+  unfold compile
+  cases hp : processTop cfg.allowEmptyTop top with
+  | error e => rfl
+  | ok o =>
+    simp only [bindE]
+    cases o with
+    | none => rfl
+    | some ns =>
+      simp only [expandTop]
+      rw [expand_fuel_adequate_partial tree files hct ns (hnames (some ns) ns hp rfl) fuel hf]
+
+/-- the hypotheses are satisfiable: a two-file tree with a relative include -/
+example : CleanInc ["", "b"] := by
+  unfold CleanInc CleanName
+  decide
+
 /-- Never partial data: the result is either an error (and then no data at all — the result
 type is a sum), or the merge of the COMPLETE documented piece list of every selected file. -/
 theorem never_partial (cfg : Cfg) (fuel : Nat) (top : TopView) (tree : Tree) :
